@@ -5,6 +5,7 @@ func init() {
 		ID:    "C08",
 		Title: "Lexing and parsing terminate on every input and end in a program or an error",
 		Rules: []string{
+			"R-RECDEPTH: every cycle of the call graph (VTA, function tables included) among the lexing and parsing functions runs through a depth guard; a cycle without one is a recursion whose depth the input decides (stack overflow ends the process)",
 			"R-LOADREC: the loader functions of the root package do not call each other in a cycle (loading is bounded by the files and the uses in them)",
 			"R-ILLEGAL: the ILLEGAL token for an unknown character is built without consuming input (the parser's only ILLEGAL check is at statement starts; names/keys are taken from the current token unchecked)",
 			"R-NILERR: every `return nil` of a parse function is preceded on all paths by a recorded error (newError, failure edge of an expect function, nil result of a parse function with the same guarantee — greatest fixpoint); parseStr/parseProgram hand out a program only when the parser recorded no error",
@@ -33,6 +34,7 @@ func init() {
 			m.newAssertChecker(s).Run("R-ASSERT", lp)
 			m.newBoundsChecker(s).Run("R-BOUNDS", "R-DIVGUARD", lp)
 			m.RunPanicCall(s, "R-PANICCALL", lp)
+			m.RunRecDepth(s, "R-RECDEPTH", lp, 2) // the statement and the expression descent
 		},
 	})
 }
